@@ -42,13 +42,14 @@ type Ledger struct {
 
 // Deviations enabled by the scenario (all off = the kernel's real answers only).
 type Deviations struct {
-	SendShort    bool // sendmsg/writev: short write (half, 1 byte) or EAGAIN
-	ReadShort    bool // readv: short read (1 byte, half) or EAGAIN
-	EpollEINTR   bool
-	AcceptEMFILE bool
-	CtlFail      bool // epoll_ctl ADD fails with ENOMEM
-	CtlFailFd    int  // if non-zero: only registrations of this descriptor may fail
-	SockoptFail  bool
+	SendShort      bool // sendmsg/writev: short write (half, 1 byte) or EAGAIN
+	ReadShort      bool // readv: short read (1 byte, half) or EAGAIN
+	EpollEINTR     bool
+	AcceptEMFILE   bool
+	CtlFail        bool // epoll_ctl ADD fails with ENOMEM
+	CtlFailFd      int  // if non-zero: only registrations of this descriptor may fail
+	SockoptFail    bool
+	PollCreateFail bool // epoll_create1 / eventfd2 fail with EMFILE
 }
 
 var led *Ledger
@@ -434,6 +435,9 @@ func RawSyscall(trap, a1, a2, a3 uintptr) (r1, r2 uintptr, err syscall.Errno) {
 	switch trap {
 	case syscall.SYS_EPOLL_CREATE1:
 		pt("epoll_create1")
+		if led.Dev.PollCreateFail && vsched.Choose(2, "epoll_create1:EMFILE") == 1 {
+			return ^uintptr(0), 0, syscall.EMFILE
+		}
 		r1, r2, err = syscall.RawSyscall(trap, a1, a2, a3)
 		if err == 0 {
 			led.created(int(r1), "epoll", "netpoll")
@@ -441,6 +445,9 @@ func RawSyscall(trap, a1, a2, a3 uintptr) (r1, r2 uintptr, err syscall.Errno) {
 		return
 	case syscall.SYS_EVENTFD2:
 		pt("eventfd2")
+		if led.Dev.PollCreateFail && vsched.Choose(2, "eventfd2:EMFILE") == 1 {
+			return ^uintptr(0), 0, syscall.EMFILE
+		}
 		r1, r2, err = syscall.RawSyscall(trap, a1, a2, a3)
 		if err == 0 {
 			led.created(int(r1), "eventfd", "netpoll")
